@@ -25,19 +25,15 @@ def _calc_overlapping_labels(
     Returns:
         _type_: _description_
     """
-    overlap_arr = prediction_arr.astype(np.uint32)
-    max_ref = max(ref_labels) + 1
-    overlap_arr = (overlap_arr * max_ref) + reference_arr
-    overlap_arr[reference_arr == 0] = 0
-    # overlapping_indices = [(i % (max_ref), i // (max_ref)) for i in np.unique(overlap_arr) if i > max_ref]
-    # instance_pairs = [(reference_arr, prediction_arr, i, j) for i, j in overlapping_indices]
+    # unique (ref, pred) pairs over the voxels where both arrays are foreground; no arithmetic
+    # encoding of the pair, so label values of any size and dtype are safe
+    overlap = (reference_arr != 0) & (prediction_arr != 0)
+    pairs = np.unique(
+        np.stack([reference_arr[overlap], prediction_arr[overlap]], axis=1), axis=0
+    )
 
     # (ref, pred)
-    return [
-        (int(i % (max_ref)), int(i // (max_ref)))
-        for i in np.unique(overlap_arr)
-        if i > max_ref
-    ]
+    return [(int(r), int(p)) for r, p in pairs]
 
 
 def _calc_matching_metric_of_overlapping_labels(
